@@ -154,7 +154,8 @@ def run_query(root, q):
         kw = {k: uncanon(v) for k, v in q.get("kw", {}).items()}
         return {"ok": canon(f(*args, **kw))}
     except Exception as e:      # noqa: BLE001 - the kind is the observation
-        return {"err": err_kind(e)}
+        # "cls": the exact class (compared with the class modelx reports where a check asks for it)
+        return {"err": err_kind(e), "cls": type(e).__name__}
 
 
 def main(argv):
